@@ -901,3 +901,7 @@ impl PeerManager {
         Ok(())
     }
 }
+
+#[cfg(discret_verif)]
+#[path = "/verif/hooks/peer_manager.rs"]
+pub(crate) mod verif_hook;
